@@ -707,10 +707,15 @@ def unwrap_elem(ex, st, seq, v, node):
         if isinstance(v, (VArr, VOpaque)):
             c = ex.fresh_int('arrcode')
             st.assume(c != 0)
+            if isinstance(v, VArr) and v.ndim == 2:
+                st.assume(OROWS(c) == Z(v.shape[0]), OCOLS(c) == Z(v.shape[1]))
             return c
         if isinstance(v, VOpt):
             c = ex.fresh_int('arrcode')
             st.assume((c == 0) == v.isnone)
+            w = st.deref(v.val)
+            if isinstance(w, VArr) and w.ndim == 2:
+                st.assume(z3.Implies(c != 0, z3.And(OROWS(c) == Z(w.shape[0]), OCOLS(c) == Z(w.shape[1]))))
             return c
     if seq.tag == 'opaque':
         return ex.fresh_int('elem')
@@ -902,9 +907,19 @@ def iteration(ex, st, it, node):
     return Iteration(n=n, bind=lambda ex_, st_, j: elem(j))
 
 
+OROWS = z3.Function('orows', z3.IntSort(), z3.IntSort())     # number of rows / columns of the 2-D array behind a non-zero code
+OCOLS = z3.Function('ocols', z3.IntSort(), z3.IntSort())
+
+
 def _optarr_wrap(t):
-    """Element of a list of optional arrays: code 0 = None, anything else = some (uninterpreted) array."""
-    return VOpt(t == 0, VOpaque('array'))
+    """Element of a list of optional arrays: code 0 = None, anything else = some 2-D array of which only the shape
+    (orows(code), ocols(code)) is known."""
+    return VOpt(t == 0, VArr((OROWS(t), OCOLS(t)), None, None, None, 'element of a list of optional arrays'))
+
+
+def optarr_rows(code):
+    """Row count as the library reads it: `I.shape[0] if I is not None else 1`."""
+    return z3.If(code == 0, 1, OROWS(code))
 
 
 def _mentions(f, c):
@@ -978,6 +993,13 @@ def listcomp(ex, st, e):
         if is_num(elt) and not is_intsort(elt):
             arr = ex.fresh('lc', z3.ArraySort(z3.IntSort(), z3.RealSort()))
             return st.alloc(VSeq(arr, it.n, lambda t: t, tag='real'))
+        if isinstance(elt, VArr) and elt.ndim == 2:
+            # list of matrices of which only the shapes matter (cross: Ig): codes of a list of (optional) arrays
+            arr = ex.fresh('lc', z3.ArraySort(z3.IntSort(), z3.IntSort()))
+            st.assume(z3.ForAll([j], z3.Implies(z3.And(j >= 0, j < it.n),
+                                               z3.And(arr[j] != 0, OROWS(arr[j]) == Z(elt.shape[0]), OCOLS(arr[j]) == Z(elt.shape[1]))),
+                                patterns=[arr[j]]))
+            return st.alloc(VSeq(arr, it.n, _optarr_wrap, tag='optarr'))
         if isinstance(elt, VArr) and elt.ndim == 3:
             arr = ex.fresh('lc', T.TT)
             if elt.t is not None and elt.tag == 'core':
@@ -1288,6 +1310,9 @@ def reshape(ex, st, a, shp, order, node):
             if _same(st, m_, Z(s0)) and _same(st, c_, T.mul_canon(s1, s2)):
                 t = T.foldR(a.t, Z(s1), Z(s2)) if a.tag == 'mat' and a.t is not None else None
                 return VArr((s0, s1, s2), t, 'core' if t is not None else None)
+    if a.ndim == 1 and len(shp) == 2 and isinstance(shp[0], int) and shp[0] == -1 and isinstance(shp[1], int) and shp[1] == 1:
+        used('reshape of a vector to (-1, 1) -> column of the same length')
+        return VArr((a.shape[0], 1), None, None, a.dtype)
     if a.ndim == 1 and len(shp) == 3 and all(not (isinstance(x, int) and x == -1) for x in shp):
         size = T.mul_canon(*shp)
         ex.oblige(st, 'call-pre', 'reshape-preserves-size', Z(a.shape[0]) == size, node)
